@@ -14,7 +14,7 @@ import os
 
 from ..core import AnalysisError
 from ..loader import facts, literal, unparse
-from ..peval import Inst, Interp, Opaque, PyRaise, Undecided, World
+from ..peval import FuncVal, Inst, Interp, Opaque, PyRaise, Undecided, World
 
 LEVEL = "other"
 EXPLANATION = (
@@ -363,6 +363,8 @@ def run(ctx):
     ctx.rule("C06.value-types", "bool and non-numeric values are rejected with TypeError by obj and by all six object classes")
     ctx.rule("C06.record-name", "Array/zip name the record _recname(is_momentum, dimension) from _check_names' own result and zip names with columns in order")
 
+    _columns_rule(ctx, W)
+
     # ---- synonym tables
     mf = facts("src/vector/_methods.py", ctx.repo)
     m2g = literal(mf.assigns["_repr_momentum_to_generic"])
@@ -451,3 +453,89 @@ def run(ctx):
     ctx.decline("acceptance of exotic numeric types by numbers.Real / dtype checks")
     if ctx.tier == "quick":
         ctx.decline("name sets of size 6 are enumerated in the thorough tier only (the property quantifies over sizes <= 5, covered in both tiers)")
+
+
+def _columns_rule(ctx, W):
+    """vector.array({...}): _array_from_columns builds the structured array from the dict of columns"""
+    ctx.rule("C06.columns", "_array_from_columns on a dict of columns given in any order: one numpy.empty(shape, dtype) whose dtype lists the fields in canonical "
+                            "coordinate order (extra fields after, in the given order), each field typed by the dtype of its OWN column (float64 for a plain sequence), "
+                            "and every field filled from the column of the same name; differing shapes raise ValueError")
+    env = W.module_env("vector.backends.numpy")
+    fn = env.get("_array_from_columns")
+    if not isinstance(fn, FuncVal):
+        raise AnalysisError("anchor vector.backends.numpy._array_from_columns missing")
+    order = literal(facts("src/vector/_methods.py", ctx.repo).assigns["_coordinate_order"])
+    cases = [
+        ("x", "y"), ("y", "x"), ("phi", "rho"), ("z", "x", "y"), ("x", "z", "y", "t"), ("mass", "eta", "phi", "pt"), ("pt", "eta", "phi", "mass"),
+        ("charge", "y", "x"), ("y", "weight", "charge", "x"), ("E", "px", "pz", "py"), ("tau", "theta", "y", "x"), ("t", "z", "phi", "rho", "q"),
+    ]
+    n = 0
+    for names in cases:
+        for plain in ((), (names[0],)):  # one variant where the first listed column is a plain Python sequence
+            n += 1
+            cols, oa = {}, {}
+            for nm in names:
+                if nm in plain:
+                    cols[nm] = [Opaque(f"{nm}[0]", "real"), Opaque(f"{nm}[1]", "real"), Opaque(f"{nm}[2]", "real")]
+                else:
+                    o = Opaque("col_" + nm, "ndarray")
+                    cols[nm] = o
+                    oa[o.tag] = {"shape": (3,), "dtype": Opaque("dtype_of_" + nm, "notnone")}
+            empties = []
+
+            def m_empty(I, args, kwargs, empties=empties):
+                empties.append((args, kwargs))
+                return Opaque(("numpy.empty", len(empties) - 1), "ndarray")
+
+            I = Interp(W, ext_models={"numpy.empty": m_empty}, opaque_attrs=oa)
+            label = "{" + ", ".join(names) + "}" + (f" [{plain[0]}: list]" if plain else "")
+            try:
+                I.call_function(fn, [cols], {})
+            except PyRaise as e:
+                ctx.ob("C06.columns", label, False, f"raises {e.exc}", None, "src/vector/backends/numpy.py")
+                continue
+            except Undecided as e:
+                raise AnalysisError(f"_array_from_columns could not be interpreted on {label}: {e}") from None
+            want = sorted(names, key=lambda x: order.index(x) if x in order else len(order))  # stable: extras keep the given order
+            msg = ""
+            if len(empties) != 1:
+                msg = f"{len(empties)} numpy.empty calls"
+            else:
+                args, kwargs = empties[0]
+                dt = kwargs.get("dtype", args[1] if len(args) > 1 else None)
+                shape = kwargs.get("shape", args[0] if args else None)
+                if shape != (3,):
+                    msg = f"allocates shape {shape!r}, the columns have shape (3,)"
+                elif not isinstance(dt, list) or [d[0] for d in dt if isinstance(d, tuple)] != want:
+                    msg = f"dtype fields {[d[0] if isinstance(d, tuple) else d for d in dt] if isinstance(dt, list) else dt!r}, expected {want}"
+                else:
+                    for nm, src in dt:
+                        exp = "numpy.float64" if nm in plain else f"dtype_of_{nm}"
+                        got = src.tag if isinstance(src, Opaque) else (getattr(src, "name", None) or repr(src))
+                        if str(got) != exp and not (nm in plain and "float64" in str(got)):
+                            msg = f"field {nm} is typed by {got}, expected {exp}"
+                            break
+            if not msg:
+                stores = {ev[2]: ev[3] for ev in I.trace if ev[0] == "setitem-opaque"}
+                for nm in names:
+                    src = stores.get(nm)
+                    ok = (src is cols[nm]) if not isinstance(cols[nm], Opaque) else (isinstance(src, Opaque) and src.tag == cols[nm].tag)
+                    if not ok:
+                        msg = f"field {nm} is filled from {src!r}"
+                        break
+                if not msg and set(stores) != set(names):
+                    msg = f"fields stored {sorted(stores)} differ from the columns {sorted(names)}"
+            ctx.ob("C06.columns", label, not msg, msg, None, "src/vector/backends/numpy.py", sample={"dtype_order": want})
+    # differing shapes are rejected
+    o1, o2 = Opaque("col_x", "ndarray"), Opaque("col_y", "ndarray")
+    I = Interp(W, ext_models={"numpy.empty": lambda I, a, k: Opaque("arr", "ndarray")},
+               opaque_attrs={o1.tag: {"shape": (3,), "dtype": Opaque("d1", "notnone")}, o2.tag: {"shape": (4,), "dtype": Opaque("d2", "notnone")}})
+    try:
+        I.call_function(fn, [{"x": o1, "y": o2}], {})
+        ok, msg = False, "columns of different shape are accepted"
+    except PyRaise as e:
+        ok, msg = e.exc == "ValueError", f"raises {e.exc}"
+    except Undecided as e:
+        raise AnalysisError(f"_array_from_columns (shape mismatch) could not be interpreted: {e}") from None
+    ctx.ob("C06.columns", "{x: shape (3,), y: shape (4,)}", ok, msg, None, "src/vector/backends/numpy.py")
+    ctx.anchor("column-order cases", n, 24)
